@@ -1,3 +1,141 @@
-/- C20 property theorems (not written yet) -/
+/-
+C20 — host trust and the debugger's gates cannot be bypassed.
+Property theorems only (helper lemmas live in Lemmas/Debugger.lean).
+-/
+import WzVerif.Model.Debugger
+import WzVerif.Lemmas.Debugger
+import WzVerif.Gen.Debugger
 namespace Wz.Props.C20
+open Wz Wz.Dbg Wz.Gen.Debugger
+
+/-! ### the live dispatch table (regenerated on every run by driving the real DebuggedApplication) -/
+
+/-- The table is the complete product of its dimensions, and no point produced an answer the
+rig could not classify (`f`). -/
+theorem table_complete :
+    outcomes.length = dims.foldl (· * ·) 1 ∧ dims.length = 7 ∧ hosts.length = dim 2 ∧
+    checkAll (fun _ o => o != 15 && o != 2) 0 outcomes = true := by
+  decide +kernel
+
+/-- The model's `dispatch` (fed with the live Host verdict) predicts the observed outcome of the real
+`DebuggedApplication.__call__` at every point of the product. -/
+theorem table_matches_model :
+    ∀ i (h : i < outcomes.length), outcomes[i] = modelOutcome (pointOf i) := by
+  have key : checkAll (fun i o => o == modelOutcome (pointOf i)) 0 outcomes = true := by decide +kernel
+  intro i h
+  simpa using checkAll_outcomes key i h
+
+/-- The live `host_is_trusted` never raised on the listed Hosts, accepted no Host of the
+"must never be accepted" class (look-alikes, unrelated names, absent/empty, IPv6 literals, empty or
+over-long labels) and accepted every Host of the "listed name or true subdomain" class. -/
+theorem table_host_verdicts :
+    ∀ r ∈ hosts, r.2.2 ≠ 2 ∧ (r.2.1 = 1 → r.2.2 = 0) ∧ (r.2.1 = 0 → r.2.2 = 1) := by
+  decide +kernel
+
+/-- ... and for the pure-ASCII Hosts of the table the model's `hostIsTrusted` (with CPython's
+ASCII fast path as the idna function) gives the live verdict. -/
+theorem table_host_model :
+    ∀ r ∈ hosts, (match r.1 with | some h => h.all (fun c => c.toNat < 128) | none => true) = true →
+      (hostIsTrusted asciiIdna r.1 defaultTrusted = (r.2.2 == 1)) := by
+  decide +kernel
+
+def evalGateOk (i o : Nat) : Bool :=
+  let p := pointOf i
+  o != 4 || (p.cmd == 0 && p.evalex && hostClass p != 1 && p.sec == 0 && p.frame == 0 &&
+    (!p.pinOn || p.cookie == 0))
+
+/-- **eval gate, live table**: wherever the spy frame's `eval` ran, the request was an eval command
+with evalex on, a Host that is not in the never-accept class, the right secret, a known frame and
+(pin off or a valid unexpired cookie). -/
+theorem eval_gate_table :
+    ∀ i (h : i < outcomes.length), outcomes[i] = 4 →
+      (pointOf i).cmd = 0 ∧ (pointOf i).evalex = true ∧ hostClass (pointOf i) ≠ 1 ∧
+      (pointOf i).sec = 0 ∧ (pointOf i).frame = 0 ∧
+      ((pointOf i).pinOn = false ∨ (pointOf i).cookie = 0) := by
+  have key : checkAll evalGateOk 0 outcomes = true := by decide +kernel
+  intro i h ho
+  have := checkAll_outcomes key i h
+  simp only [evalGateOk, ho] at this
+  simpa using this
+
+/-- the gate is not vacuous: the first point of the table (eval, right secret, localhost, valid
+cookie, known frame, evalex on, pin on) did evaluate -/
+example : outcomes[0]? = some 4 := by decide +kernel
+
+def consoleGateOk (i o : Nat) : Bool :=
+  let p := pointOf i
+  o != 5 || (p.cmd == 1 && p.evalex && hostClass p != 1)
+
+/-- **console gate, live table**: the console page was rendered only for the console path with
+evalex on and a Host outside the never-accept class. -/
+theorem console_gate_table :
+    ∀ i (h : i < outcomes.length), outcomes[i] = 5 →
+      (pointOf i).cmd = 1 ∧ (pointOf i).evalex = true ∧ hostClass (pointOf i) ≠ 1 := by
+  have key : checkAll consoleGateOk 0 outcomes = true := by decide +kernel
+  intro i h ho
+  have := checkAll_outcomes key i h
+  simp only [consoleGateOk, ho] at this
+  simpa using this
+
+def pinGateOk (i o : Nat) : Bool :=
+  let p := pointOf i
+  (!(8 ≤ o && o ≤ 11) || ((p.cmd == 2 || p.cmd == 3) && p.sec == 0 && hostClass p != 1)) &&
+  (!(o == 6 || o == 7) || (p.cmd == 4 && p.sec == 0 && hostClass p != 1)) &&
+  -- authenticated only through a valid cookie, the right PIN, or with the PIN switched off
+  (!(o == 10 || o == 11) || (!p.pinOn || p.cookie == 0 || p.cmd == 2))
+
+/-- **pinauth / printpin gates, live table**: the PIN endpoints answered (JSON body / empty 200,
+log line) only for their own command with the right secret and a Host outside the never-accept
+class; `auth` was granted only with pin off, a valid cookie, or the right PIN. -/
+theorem pin_gates_table :
+    ∀ i (h : i < outcomes.length),
+      ((8 ≤ outcomes[i] ∧ outcomes[i] ≤ 11) →
+        ((pointOf i).cmd = 2 ∨ (pointOf i).cmd = 3) ∧ (pointOf i).sec = 0 ∧ hostClass (pointOf i) ≠ 1) ∧
+      ((outcomes[i] = 6 ∨ outcomes[i] = 7) →
+        (pointOf i).cmd = 4 ∧ (pointOf i).sec = 0 ∧ hostClass (pointOf i) ≠ 1) ∧
+      ((outcomes[i] = 10 ∨ outcomes[i] = 11) →
+        (pointOf i).pinOn = false ∨ (pointOf i).cookie = 0 ∨ (pointOf i).cmd = 2) := by
+  have key : checkAll pinGateOk 0 outcomes = true := by decide +kernel
+  intro i h
+  have := checkAll_outcomes key i h
+  simp only [pinGateOk, Bool.and_eq_true, Bool.or_eq_true, Bool.not_eq_true', Bool.and_eq_false_imp,
+    decide_eq_true_eq, beq_iff_eq, bne_iff_ne, ne_eq, Bool.not_eq_eq_eq_not, Bool.not_true,
+    decide_eq_false_iff_not, Bool.or_eq_false_iff, beq_eq_false_iff_ne] at this
+  obtain ⟨⟨h1, h2⟩, h3⟩ := this
+  refine ⟨?_, ?_, ?_⟩
+  · intro ⟨ha, hb⟩
+    rcases h1 with h1 | h1
+    · exact absurd hb (h1 ha)
+    · exact ⟨h1.1.1, h1.1.2, h1.2⟩
+  · intro ho
+    rcases h2 with h2 | h2
+    · rcases ho with ho | ho
+      · exact absurd ho h2.1
+      · exact absurd ho h2.2
+    · exact ⟨h2.1.1, h2.1.2, h2.2⟩
+  · intro ho
+    rcases h3 with h3 | h3
+    · rcases ho with ho | ho
+      · exact absurd ho h3.1
+      · exact absurd ho h3.2
+    · rcases h3 with (h3 | h3) | h3
+      · exact Or.inl h3
+      · exact Or.inr (Or.inl h3)
+      · exact Or.inr (Or.inr h3)
+
+def untrustedOk (i o : Nat) : Bool :=
+  let p := pointOf i
+  hostClass p != 1 || (o == 0 || o == 1 || o == 3)
+
+/-- **untrusted Host, live table**: a Host of the never-accept class gets the wrapped application,
+a static resource, or a 400 SecurityError — never a debugger answer and never another failure. -/
+theorem untrusted_host_table :
+    ∀ i (h : i < outcomes.length), hostClass (pointOf i) = 1 →
+      outcomes[i] = 0 ∨ outcomes[i] = 1 ∨ outcomes[i] = 3 := by
+  have key : checkAll untrustedOk 0 outcomes = true := by decide +kernel
+  intro i h hc
+  have := checkAll_outcomes key i h
+  simp only [untrustedOk, hc] at this
+  simpa using this
+
 end Wz.Props.C20
